@@ -17,6 +17,24 @@ pub struct CaptureIo {
     out: Rc<RefCell<Vec<u8>>>,
     /// accept at most this many bytes per write call (exercises write_all loops)
     write_cap: usize,
+    /// once this many bytes have been accepted every further write fails (a peer that went away)
+    fail_after: Option<usize>,
+    accepted: usize,
+}
+
+impl CaptureIo {
+    fn accept(&mut self, buf: &[u8]) -> io::Result<usize> {
+        let mut n = buf.len().min(self.write_cap);
+        if let Some(limit) = self.fail_after {
+            if self.accepted >= limit {
+                return Err(io::Error::new(io::ErrorKind::BrokenPipe, "simulated: peer went away"));
+            }
+            n = n.min(limit - self.accepted).max(1);
+        }
+        self.accepted += n;
+        self.out.borrow_mut().extend_from_slice(&buf[..n]);
+        Ok(n)
+    }
 }
 
 impl Read for CaptureIo {
@@ -31,9 +49,7 @@ impl Read for CaptureIo {
 
 impl Write for CaptureIo {
     fn write(&mut self, buf: &[u8]) -> io::Result<usize> {
-        let n = buf.len().min(self.write_cap);
-        self.out.borrow_mut().extend_from_slice(&buf[..n]);
-        Ok(n)
+        self.accept(buf)
     }
     fn flush(&mut self) -> io::Result<()> {
         Ok(())
@@ -51,10 +67,8 @@ impl AsyncRead for CaptureIo {
 }
 
 impl AsyncWrite for CaptureIo {
-    fn poll_write(self: Pin<&mut Self>, _cx: &mut Context<'_>, buf: &[u8]) -> Poll<io::Result<usize>> {
-        let n = buf.len().min(self.write_cap);
-        self.out.borrow_mut().extend_from_slice(&buf[..n]);
-        Poll::Ready(Ok(n))
+    fn poll_write(mut self: Pin<&mut Self>, _cx: &mut Context<'_>, buf: &[u8]) -> Poll<io::Result<usize>> {
+        Poll::Ready(self.accept(buf))
     }
     fn poll_flush(self: Pin<&mut Self>, _cx: &mut Context<'_>) -> Poll<io::Result<()>> {
         Poll::Ready(Ok(()))
@@ -73,7 +87,7 @@ pub struct SyncCapture {
 impl SyncCapture {
     pub fn new(write_cap: usize) -> SyncCapture {
         let out = Rc::new(RefCell::new(Vec::new()));
-        let io = CaptureIo { greeting_pos: 0, out: out.clone(), write_cap: write_cap.max(1) };
+        let io = CaptureIo { greeting_pos: 0, out: out.clone(), write_cap: write_cap.max(1), fail_after: None, accepted: 0 };
         let conn = Connection::connect(io).expect("connect over capture io");
         SyncCapture { conn, out }
     }
@@ -97,7 +111,7 @@ pub struct AsyncCapture {
 impl AsyncCapture {
     pub fn new(write_cap: usize) -> AsyncCapture {
         let out = Rc::new(RefCell::new(Vec::new()));
-        let io = CaptureIo { greeting_pos: 0, out: out.clone(), write_cap: write_cap.max(1) };
+        let io = CaptureIo { greeting_pos: 0, out: out.clone(), write_cap: write_cap.max(1), fail_after: None, accepted: 0 };
         let conn = spin_block_on(AsyncConnection::connect(io)).expect("connect over capture io");
         AsyncCapture { conn, out }
     }
@@ -111,4 +125,23 @@ impl AsyncCapture {
         spin_block_on(self.conn.send_list(l)).expect("send_list over capture io");
         std::mem::take(&mut *self.out.borrow_mut())
     }
+}
+
+/// What an application does on the same thread before the sends that are examined: it had another connection
+/// whose peer went away in the middle of a request (the write fails after `accept` bytes). The failed requests
+/// must leave no trace in what later connections write. Returns how many of the sends failed.
+pub fn failed_sends_on_another_connection(accept: usize, single: Command, list: CommandList) -> usize {
+    let mut failed = 0;
+    let out = Rc::new(RefCell::new(Vec::new()));
+    let io = CaptureIo { greeting_pos: 0, out: out.clone(), write_cap: 7, fail_after: Some(accept), accepted: 0 };
+    if let Ok(mut conn) = Connection::connect(io) {
+        failed += conn.send_list(list.clone()).is_err() as usize;
+        failed += conn.send(single.clone()).is_err() as usize;
+    }
+    let io = CaptureIo { greeting_pos: 0, out, write_cap: 7, fail_after: Some(accept), accepted: 0 };
+    if let Ok(mut conn) = spin_block_on(AsyncConnection::connect(io)) {
+        failed += spin_block_on(conn.send_list(list)).is_err() as usize;
+        failed += spin_block_on(conn.send(single)).is_err() as usize;
+    }
+    failed
 }
